@@ -15,11 +15,11 @@ func init() {
 		Pkgs:      []string{"container/bytes", "files"},
 		Run:       runC17,
 		Technique: "static analysis: sentinel result-use rule, must-pass-through path queries, must-lockset dataflow, atomic-only census and sibling agreement on go/ssa of container/bytes/blocks.go",
-		Explanation: "R1: the sentinel (-1) of the geometry function GetBlocksInSegment is tested at every call site on an edge that dominates every arithmetic use of the result. " +
-			"R2: every success exit of ArrangeBlock passes a store that sets a bit in a slice obtained from the underlying buffer and an atomic decrement of the free counter; every success exit of FreeBlock passes the clearing store, dominated by the 'bit is set' edge (no double free), and the atomic increment. Success exits are exit points (a return of merged results counts per alternative); when the body of the operation runs as a function literal that the method invokes on every path and that reports through the method's captured error variable, the literal's points that leave that variable nil are the success exits. The set store is guarded by the 'bit is clear' edge (directly, through a flag that is only true where the test succeeded, or by choosing the bit as TrailingZeros of the non-zero complement of the header byte). The free counter is an int32 word used through sync/atomic functions or a typed atomic.Int32. " +
+		Explanation: "R1: the sentinel (-1) of the geometry function GetBlocksInSegment is tested at every call site on an edge that dominates every arithmetic use of the result; the rejecting exit returns an error wrapping ErrInvalid - in the constructor, or in a private validation function of the constructor whose error the constructor hands out unchanged on every path on which it is non-nil. " +
+			"R2: every success exit of ArrangeBlock passes a store that sets a bit in a slice obtained from the underlying buffer and an atomic decrement of the free counter; every success exit of FreeBlock passes the clearing store, dominated by the 'bit is set' edge (no double free), and the atomic increment. Success exits are exit points (a return of merged results counts per alternative); when the body of the operation runs as a function literal that the method invokes on every path and that reports through the method's captured error variable, the literal's points that leave that variable nil are the success exits. The set store is guarded by the 'bit is clear' edge (directly, through a flag that is only true where the test succeeded, through the ok/error result of a private helper every exit of which that can produce this result is behind the test, or by choosing the bit as TrailingZeros of the non-zero complement of the header byte). The free counter is an int32 word used through sync/atomic functions or a typed atomic.Int32. " +
 			"R3: header bytes (slices from bts.Buffer) and the free hint are read/written in the functions that carry out ArrangeBlock/FreeBlock (the method, its function literals, the private helpers it calls) only with the allocator mutex held - held on entry of a helper/literal when every place that runs it holds it (static call on the same receiver, direct call, wrapper that calls its function parameter under the lock); every Lock reaches an Unlock on all paths including error exits. " +
-			"R4: every success exit of the constructor passes the routine that recomputes the free counter from the headers; elsewhere the counter is touched only through sync/atomic. " +
-			"R5: Block and the header-coordinate helper reject segm>=segments and idx<0 before computing an offset (uses of the segment number are followed through merges of result variables). " +
+			"R4: every success exit of the constructor passes the routine that recomputes the free counter from the headers (it reads them from the buffer and no loop of the functions that carry it out - the routine, its function literals, its private helpers - is left early except towards a failing exit point); elsewhere the counter is touched only through sync/atomic. " +
+			"R5: Block and the header-coordinate helper reject segm>=segments and idx<0 before computing an offset (uses of the segment number are followed through merges of result variables, and into the callers of a function that returns it: there a use must sit behind the ok/error outcome of that call that only its accepting exits produce; methods of value types embedded in the allocator count as its methods). " +
 			"R6: in the functions that carry out FreeBlock every store hint=x is dominated by the hint>x edge (a hint that moves up hides free blocks). " +
 			"R7: every product that involves both the blocks-per-segment field and the block-size field uses (blocksPerSegment+1): a segment occupies its header block too (sibling agreement on the stride; floor: each of allocate, free, recount computes the stride in the functions that carry it out). R8: every path to a non-sentinel result of the geometry function takes an edge that bounds the block size from above (without it (8*bs+1)*bs overflows int and the wrapped geometry is accepted). R9: the constructor compares a value derived from the storage size with a bound derived from the int32 counter maximum before it hands out an allocator. R10: on the path of files.NewMMFile every (*os.File).Truncate sits behind a test that the file is shorter than the new size (opening never cuts an existing storage). R11: a hint that was stepped through a header block is set back to a header start (a multiple of the stride, or 0) before the next header is fetched or ErrExhausted is returned.",
 		NotDecided: "disjointness of block byte ranges and the index<->offset arithmetic as values; behaviour of the memory mapping; fairness under concurrency.",
@@ -131,6 +131,7 @@ func runC17(c *Ctx) {
 		roleFns[recount] = true
 	}
 	arrangeGroup := xcGroup(arrange, roleFns)
+	ctorGroup := xcGroup(ctor, roleFns)
 	freeGroup := xcGroup(free, roleFns)
 	// hint = the int field FreeBlock stores to; segments = int field compared in Block's rejection
 	var hint *types.Var
@@ -267,22 +268,41 @@ func runC17(c *Ctx) {
 				detail = "the result of the geometry function (-1 for an unacceptable block size) is used at " + c.P.InstrPos(bad) + " without being tested: an invalid geometry yields an allocator instead of ErrInvalid"
 			}
 			c.Decide("C17.R1", fn, "sentinel of GetBlocksInSegment tested before use", call, ok, detail)
-			// and the rejecting edge returns an error wrapping ErrInvalid (constructor only)
-			if fn == ctor {
+			// and the rejecting edge returns an error wrapping ErrInvalid: in the constructor, or in a private function
+			// that carries out the construction (a validation phase split off) whose error the constructor hands out as it
+			// is. Exit points: a return of a merged error counts per alternative.
+			if fn == ctor || xcInGroup(ctorGroup, fn) {
 				okErr := false
-				for _, ret := range ir.Returns(fn) {
-					rejecting := hasFactCmp(ret.Block(), func(cm ir.Cmp) bool {
-						if ir.Resolve(cm.X) != ssa.Value(call) {
-							return false
+				eidx := ir.ErrResultIndex(fn)
+				for _, ep := range yhExitPoints(fn) {
+					if eidx < 0 {
+						break
+					}
+					rejecting := false
+					for _, f := range yhExitFacts(ep) {
+						cm, isCmp := f.Cmp()
+						if !isCmp || ir.Resolve(cm.X) != ssa.Value(call) {
+							continue
 						}
 						k, isC := ir.ConstInt(cm.Y)
-						return isC && ((cm.Op == token.LSS && k <= 0) || (cm.Op == token.LEQ && k <= 0) || (cm.Op == token.EQL && k == -1))
-					})
-					if rejecting && wrapsGlobal(ir.ResultValue(ret, 1), "ErrInvalid") {
+						if isC && ((cm.Op == token.LSS && k <= 0) || (cm.Op == token.LEQ && k <= 0) || (cm.Op == token.EQL && k == -1)) {
+							rejecting = true
+						}
+					}
+					ev := ep.Result(eidx)
+					if ep.Edge == nil && ep.Block == ep.Ret.Block() {
+						ev = ir.ResultValue(ep.Ret, eidx)
+					}
+					if rejecting && wrapsGlobal(ev, "ErrInvalid") {
 						okErr = true
 					}
 				}
-				c.Decide("C17.R1", fn, "invalid geometry -> ErrInvalid", call, okErr, "the constructor does not return an error wrapping ErrInvalid on the sentinel edge")
+				detail := "the constructor does not return an error wrapping ErrInvalid on the sentinel edge"
+				if okErr && fn != ctor && !yhErrorHandedOut(fn, ctor, pkgFns, 0) {
+					okErr = false
+					detail = "the function that rejects the sentinel returns an error wrapping ErrInvalid, but the constructor does not hand that error out on every path on which it is set"
+				}
+				c.Decide("C17.R1", fn, "invalid geometry -> ErrInvalid", call, okErr, detail)
 			}
 		}
 	}
@@ -431,8 +451,10 @@ func runC17(c *Ctx) {
 	effectBeforeSuccess("free increments the free counter", free, freeGroup, func(in ssa.Instruction) bool { return atomicAdd(in, 1) },
 		"FreeBlock can succeed without incrementing the free counter")
 	// the set store is guarded by "bit is clear", the clear store by "bit is set"
+	// (a fact known through the outcome of a helper counts: "j, ok := firstFree(b); if ok" - every way the helper returns
+	// ok == true is behind the test)
 	bitTest := func(b *ssa.BasicBlock, wantSet bool) bool {
-		return xcHasFactCmp(b, func(cm ir.Cmp) bool {
+		return yhHolds(b, func(cm ir.Cmp) bool {
 			bo, ok := ir.Resolve(cm.X).(*ssa.BinOp)
 			if !ok || bo.Op != token.AND {
 				return false
@@ -563,20 +585,30 @@ func runC17(c *Ctx) {
 					// a return that hands out an allocator
 					return !ir.IsNilConst(ir.Resolve(ir.ResultValue(ret, 0)))
 				}}, "the constructor can hand out an allocator whose free counter was not rebuilt from the headers")
-			// the recount routine reads the headers
+			// the recount routine reads the headers - in the functions that carry it out: the routine, its function literals
+			// and the private helpers it calls (a header iterator, a bit counter)
+			recountGroup := xcGroup(recount, roleFns)
 			readsHdr := false
-			ir.Instrs(recount, func(in ssa.Instruction) {
-				if call, ok := in.(*ssa.Call); ok && call.Call.IsInvoke() && call.Call.Method.Name() == "Buffer" {
-					readsHdr = true
-				}
-			})
-			c.Decide("C17.R4", recount, "recount reads the headers from the buffer", nil, readsHdr, "the recount routine does not read the headers from the underlying buffer")
-			// the recount is an exhaustive scan: its loops are left only through their own condition (or with an error)
-			for _, ex := range loopEarlyExits(recount) {
-				c.Decide("C17.R4", recount, "recount scans every header byte (no early loop exit)", ex, false, "the recount leaves a loop over the header bytes/segments early: bytes behind that point are assumed instead of counted, so after a reopen the free counter (and with it ErrExhausted) disagrees with the bitmap")
+			for _, fn := range recountGroup {
+				ir.Instrs(fn, func(in ssa.Instruction) {
+					if call, ok := in.(*ssa.Call); ok && call.Call.IsInvoke() && call.Call.Method.Name() == "Buffer" {
+						readsHdr = true
+					}
+				})
 			}
-			if len(loopEarlyExits(recount)) == 0 {
-				c.Decide("C17.R4", recount, "recount scans every header byte (no early loop exit)", nil, hasLoop(recount), "the recount routine has no loop over the headers")
+			c.Decide("C17.R4", recount, "recount reads the headers from the buffer", nil, readsHdr, "the recount routine does not read the headers from the underlying buffer")
+			// the recount is an exhaustive scan: the loops of these functions are left only through their own condition (or
+			// with an error)
+			early, loops := 0, false
+			for _, fn := range recountGroup {
+				for _, ex := range loopEarlyExits(fn) {
+					early++
+					c.Decide("C17.R4", fn, "recount scans every header byte (no early loop exit)", ex, false, "the recount leaves a loop over the header bytes/segments early: bytes behind that point are assumed instead of counted, so after a reopen the free counter (and with it ErrExhausted) disagrees with the bitmap")
+				}
+				loops = loops || hasLoop(fn)
+			}
+			if early == 0 {
+				c.Decide("C17.R4", recount, "recount scans every header byte (no early loop exit)", nil, loops, "the recount routine has no loop over the headers")
 			}
 			// other accesses are atomic
 			for _, fn := range pkgFns {
@@ -604,8 +636,10 @@ func runC17(c *Ctx) {
 
 	var perSeg, blkSize *types.Var
 	// blkSize = int field passed as size to Buffer(); perSeg = int field that divides an index parameter
+	// (in the methods of the allocator and of the value types that hold part of its state: a geometry struct embedded in it)
+	carriers := yhCarriers(blocks)
 	for _, fn := range pkgFns {
-		if fn.Signature.Recv() == nil || namedOf(fn.Signature.Recv().Type()) != blocks {
+		if !yhRecvIn(fn, carriers) {
 			continue
 		}
 		ir.Instrs(fn, func(in ssa.Instruction) {
@@ -635,7 +669,7 @@ func runC17(c *Ctx) {
 	{
 		segments := c.fieldComparedInAny(pkgFns, blocks, perSeg)
 		for _, fn := range pkgFns {
-			if fn.Signature.Recv() == nil || namedOf(fn.Signature.Recv().Type()) != blocks {
+			if !yhRecvIn(fn, carriers) {
 				continue
 			}
 			var segm *ssa.BinOp
@@ -668,30 +702,85 @@ func runC17(c *Ctx) {
 					}
 				}
 			})
+			upperPred := func(cm ir.Cmp) bool {
+				if ir.Resolve(cm.X) == ssa.Value(segm) && cm.Op == token.LSS {
+					_, isSeg := loadOfField(cm.Y, segments)
+					return isSeg
+				}
+				// segments > segm
+				if ir.Resolve(cm.Y) == ssa.Value(segm) && cm.Op == token.GTR {
+					_, isSeg := loadOfField(cm.X, segments)
+					return isSeg
+				}
+				return false
+			}
+			lowerPred := func(cm ir.Cmp) bool {
+				if k, isC := ir.ConstInt(cm.Y); isC && ir.Resolve(cm.X) == ssa.Value(idxP) {
+					return (cm.Op == token.GEQ && k == 0) || (cm.Op == token.GTR && k == -1)
+				}
+				// 0 <= idx
+				if k, isC := ir.ConstInt(cm.X); isC && ir.Resolve(cm.Y) == ssa.Value(idxP) {
+					return (cm.Op == token.LEQ && k == 0) || (cm.Op == token.LSS && k == -1)
+				}
+				return false
+			}
+			const r5detail = "a segment number derived from the index is used although idx >= 0 (tested on the index itself) and segm < segments do not both dominate the use: small negative indices map to segment 0 and address the bookkeeping header as if it were a data block"
 			for _, u := range uses {
-				upper := xcHasFactCmp(u.Block(), func(cm ir.Cmp) bool {
-					if ir.Resolve(cm.X) == ssa.Value(segm) && cm.Op == token.LSS {
-						_, isSeg := loadOfField(cm.Y, segments)
-						return isSeg
+				upper := xcHasFactCmp(u.Block(), upperPred)
+				lower := xcHasFactCmp(u.Block(), lowerPred)
+				c.Decide("C17.R5", fn, "segment number used only for an index in range", u, upper && lower, r5detail)
+			}
+			// a function that hands the segment number to its callers (segm, ok := segmentOf(idx)): what the callers do with
+			// that result is a use as well - in arithmetic, as an argument, in a returned value - and has to sit behind a
+			// fact about the outcome of this very call (ok is true, the error is nil) that only the accepting exits of the
+			// function produce, i.e. at every exit that can produce it both tests hold
+			for ri := 0; ri < fn.Signature.Results().Len(); ri++ {
+				hands := false
+				for _, ret := range ir.Returns(fn) {
+					if ri < len(ret.Results) && xcMayBe(ir.ResultValue(ret, ri), segm) {
+						hands = true
 					}
-					// segments > segm
-					if ir.Resolve(cm.Y) == ssa.Value(segm) && cm.Op == token.GTR {
-						_, isSeg := loadOfField(cm.X, segments)
-						return isSeg
+				}
+				if !hands {
+					continue
+				}
+				for _, g := range pkgFns {
+					for _, call := range callsTo(g, fn) {
+						var got ssa.Value
+						if fn.Signature.Results().Len() == 1 {
+							got = call
+						} else if call.Referrers() != nil {
+							for _, r := range *call.Referrers() {
+								if ex, isEx := r.(*ssa.Extract); isEx && ex.Index == ri {
+									got = ex
+								}
+							}
+						}
+						if got == nil {
+							continue
+						}
+						ir.Instrs(g, func(in ssa.Instruction) {
+							used := false
+							switch x := in.(type) {
+							case *ssa.BinOp:
+								used = (x.Op == token.MUL || x.Op == token.ADD) && (xcMayBe(x.X, got) || xcMayBe(x.Y, got))
+							case *ssa.Return:
+								for _, rv := range x.Results {
+									used = used || xcMayBe(rv, got)
+								}
+							case ssa.CallInstruction:
+								for _, a := range x.Common().Args {
+									used = used || xcMayBe(a, got)
+								}
+							}
+							if !used {
+								return
+							}
+							ok := yhHoldsThroughCall(in.Block(), call, upperPred) && yhHoldsThroughCall(in.Block(), call, lowerPred)
+							c.Decide("C17.R5", g, "segment number used only for an index in range", in, ok, r5detail)
+						})
 					}
-					return false
-				})
-				lower := xcHasFactCmp(u.Block(), func(cm ir.Cmp) bool {
-					if k, isC := ir.ConstInt(cm.Y); isC && ir.Resolve(cm.X) == ssa.Value(idxP) {
-						return (cm.Op == token.GEQ && k == 0) || (cm.Op == token.GTR && k == -1)
-					}
-					// 0 <= idx
-					if k, isC := ir.ConstInt(cm.X); isC && ir.Resolve(cm.Y) == ssa.Value(idxP) {
-						return (cm.Op == token.LEQ && k == 0) || (cm.Op == token.LSS && k == -1)
-					}
-					return false
-				})
-				c.Decide("C17.R5", fn, "segment number used only for an index in range", u, upper && lower, "a segment number derived from the index is used although idx >= 0 (tested on the index itself) and segm < segments do not both dominate the use: small negative indices map to segment 0 and address the bookkeeping header as if it were a data block")
+				}
 			}
 		}
 	}
@@ -744,12 +833,8 @@ func runC17(c *Ctx) {
 				if k, isC := ir.ConstInt(val); isC && k == 0 {
 					return true
 				}
-				for _, o := range ir.Origins(val) {
-					if bo, isBo := o.(*ssa.BinOp); isBo && bo.Op == token.MUL {
-						return true
-					}
-				}
-				return false
+				// a product, also one that a helper of the package names (segmOffs(n))
+				return yhResultIsProduct(val, 0)
 			}
 			isStep := func(x ssa.Instruction) bool {
 				_, val, ok := storeToField(x, hint)
@@ -951,7 +1036,9 @@ func runC17(c *Ctx) {
 			if ir.IsNilConst(ir.Resolve(ir.ResultValue(ret, 0))) {
 				continue
 			}
-			ok := hasFactCmp(ret.Block(), func(cm ir.Cmp) bool {
+			// (also when the comparison sits in a validation helper and the exit is behind "its error is nil": then it holds
+			// at every exit of the helper that returns a nil error)
+			ok := yhHolds(ret.Block(), func(cm ir.Cmp) bool {
 				return (fromSize(cm.X, 0) && hasMax(cm.Y, 0)) || (fromSize(cm.Y, 0) && hasMax(cm.X, 0))
 			})
 			c.Decide("C17.R9", ctor, "block count fits the free counter", ret, ok,
@@ -1029,6 +1116,10 @@ func loopEarlyExits(fn *ssa.Function) []ssa.Instruction {
 					if idx >= 0 && ir.ClassifyErr(ir.ResultValue(ret, idx), y) == ir.ErrNonNil {
 						continue
 					}
+				}
+				// as is one that can only end in a failing exit point ("res = err; break" in front of a single return)
+				if yhLeadsOnlyToFailure(fn, x, y) {
+					continue
 				}
 				seen[x] = true
 				res = append(res, x.Instrs[len(x.Instrs)-1])
